@@ -284,10 +284,25 @@ func (in *Interp) store(p Ptr, v Value) {
 				return
 			}
 		}
-		cells[in.Ctx.ConcretizeIndex(p.Sym, p.N)] = copyVal(v)
+		assignCell(cells, in.Ctx.ConcretizeIndex(p.Sym, p.N), v)
 		return
 	}
-	p.O.Cells[p.I] = copyVal(v)
+	assignCell(p.O.Cells, p.I, v)
+}
+
+// assignCell stores v into cells[i]. Struct and array values are copied INTO the
+// existing object (Go assigns aggregates in place, so pointers to their fields or
+// elements taken earlier stay valid).
+func assignCell(cells []Value, i int, v Value) {
+	if src, ok := v.(*Obj); ok && src != nil {
+		if dst, ok := cells[i].(*Obj); ok && dst != nil && dst != src && len(dst.Cells) == len(src.Cells) {
+			for k := range src.Cells {
+				assignCell(dst.Cells, k, src.Cells[k])
+			}
+			return
+		}
+	}
+	cells[i] = copyVal(v)
 }
 
 func (in *Interp) panicf(format string, args ...any) {
